@@ -449,14 +449,19 @@ func init() {
 			for _, sc := range c16Scenarios() {
 				us = append(us, shardUnits(sc.Name, b, 4)...)
 			}
+			us = append(us, raceUnits(c16Scenarios(), nil)...)
 			return us
 		},
+		ExeFor: raceExe,
 		Run: func(unit string, env *fw.Env) *fw.Result {
 			switch unit {
 			case "seq":
 				return c16SeqUnit(unit, env)
 			case "manager":
 				return c16ManagerUnit(unit, env)
+			}
+			if strings.HasPrefix(unit, "race/") {
+				return raceRun("C16", c16Scenarios(), unit, env)
 			}
 			sp := parseSched(unit)
 			for _, sc := range c16Scenarios() {
